@@ -1003,7 +1003,10 @@ class Generator:
         emitted_any = False
         for suffix, case, props, ens in self.copies(spec):
             nm = base + suffix
-            eds = list(common)
+            # `__CASE__` in spliced ghost text (loop invariants) stands for the case condition of this copy: a loop that belongs to
+            # another case's match arm states `__CASE__, diff is <its variant>` and is vacuous in this copy
+            case_when = ("(%s)" % case["when"]) if case else "true"
+            eds = [(a, b, r.replace("__CASE__", case_when)) for a, b, r in common]
             eds.append((sig["ident"][0], sig["ident"][1], nm))
             req = list(spec.requires)
             if case:
